@@ -362,3 +362,41 @@ Check C19_inlay_model_is_source :
      src_inlay_hint_exec (mkIdb M trees) loc = outcome_of_sres (inlay_hint M (fun f => Some (trees f)) loc)) /\
   (forall ops M, run_ops ops = SOk M -> fields_kinded M).
 Print Assumptions C19_inlay_model_is_source.
+
+(** ... and for hover itself: the rendering of hover.rs `extract_symbol_signature` and `exec` equals Outline.extract_symbol_signature /
+    Outline.hover -- the functions C19_hover_same_symbol / C19_hover_iff_definition / C19_signature / C19_hover_doc are about -- in every
+    state whose arenas hold entries of their own kind ([kinded]: true of every replayed state, last conjunct), for positions whose
+    symbol's define_loc lies inside its file (rowan's contract for `covering_element`).  `VariableKind` is not part of the model: the
+    `match variable.kind` is rendered because all its arms agree (the translator refuses it otherwise). *)
+Theorem C19_hover_model_is_source :
+  (forall M pos, kinded M ->
+     src_extract_symbol_signature M pos = outcome_of_sres (extract_symbol_signature M (fst pos) (snd pos))) /\
+  (forall M trees pos, kinded M ->
+     (forall sig loc, extract_symbol_signature M (fst pos) (snd pos) = SOk (Some (sig, loc)) ->
+        covering_element (trees (fr_file loc)) (fr_lo loc) (fr_hi loc) <> None) ->
+     src_hover_exec (mkIdb M trees) pos =
+       match hover M (fun f => Some (trees f)) (fst pos) (snd pos) with
+       | SOk None => Done None
+       | SOk (Some (sig, DocSome t)) => Done (Some (sig, Some t))
+       | SOk (Some (sig, DocNone)) => Done (Some (sig, None))
+       | SOk (Some (sig, DocOutOfFuel)) => OutOfFuel
+       | SErr _ => Panicked
+       end) /\
+  (forall ops M, run_ops ops = SOk M -> kinded M).
+Proof. exact c19_hover_model_is_source. Qed.
+Check C19_hover_model_is_source :
+  (forall M pos, kinded M ->
+     src_extract_symbol_signature M pos = outcome_of_sres (extract_symbol_signature M (fst pos) (snd pos))) /\
+  (forall M trees pos, kinded M ->
+     (forall sig loc, extract_symbol_signature M (fst pos) (snd pos) = SOk (Some (sig, loc)) ->
+        covering_element (trees (fr_file loc)) (fr_lo loc) (fr_hi loc) <> None) ->
+     src_hover_exec (mkIdb M trees) pos =
+       match hover M (fun f => Some (trees f)) (fst pos) (snd pos) with
+       | SOk None => Done None
+       | SOk (Some (sig, DocSome t)) => Done (Some (sig, Some t))
+       | SOk (Some (sig, DocNone)) => Done (Some (sig, None))
+       | SOk (Some (sig, DocOutOfFuel)) => OutOfFuel
+       | SErr _ => Panicked
+       end) /\
+  (forall ops M, run_ops ops = SOk M -> kinded M).
+Print Assumptions C19_hover_model_is_source.
